@@ -1477,7 +1477,12 @@ def _rewrite_extend_comp(fn, body_list):
       continue      # a list comprehension is complete before extend starts: `x not in L` sees the old L throughout
     inside = {id(x) for x in ast.walk(comp)}
     outside = {x.id for x in ast.walk(fn) if isinstance(x, ast.Name) and id(x) not in inside} | {a.arg for a in ast.walk(fn.args) if isinstance(a, ast.arg)}
-    ren = {nm: nm + '__g' for nm in tnames if nm in outside}
+    # always set apart: a loop variable made from a comprehension variable must not take a name the reference uses for something else
+    ren = {nm: nm + '__g' for nm in tnames}
+    k_ = 1
+    while any(v in outside for v in ren.values()):
+      k_ += 1
+      ren = {nm: '%s__g%d' % (nm, k_) for nm in tnames}
     if ren:
       class R(ast.NodeTransformer):
         def visit_Name(self, n):
